@@ -538,9 +538,60 @@ fn cmpseq(a: &[String]) -> ! {
     std::process::exit(0)
 }
 
+/// `leaf <owned|borrowed> <tag> <input length after the tag> <wire fields...>`: the tag's parser on an input of exactly that length whose
+/// leading fields carry the model's values (rest zero); a panic is the violation (exit 101)
+fn leaf(a: &[String]) -> ! {
+    let tag: u8 = a[3].parse().unwrap();
+    let in_len: usize = a[4].parse::<u64>().unwrap().min(4096) as usize;
+    let w: Vec<u64> = a[5..].iter().map(|x| x.parse().unwrap()).collect();
+    let widths: &[usize] = match tag {
+        109 | 111 => &[4, 1],
+        77 => &[4, 1],
+        107 | 118 | 100 => &[2],
+        110 => &[1, 1],
+        98 => &[4],
+        70 => &[8],
+        _ => &[1],
+    };
+    let mut body: Vec<u8> = vec![];
+    for (i, wd) in widths.iter().enumerate() {
+        let v = w.get(i).copied().unwrap_or(0);
+        body.extend_from_slice(&v.to_be_bytes()[8 - wd..]);
+    }
+    body.resize(in_len, 0);
+    let mut b = vec![131u8, tag];
+    b.extend_from_slice(&body);
+    if a[2] == "agree" {
+        // the model fixes the leading fields; the top-level entry points also reject trailing bytes, so every prefix length is tried
+        let show = |r: &std::thread::Result<Option<String>>| match r { Ok(Some(v)) => format!("accepts {}", v), Ok(None) => "rejects".to_string(), Err(_) => "panics".to_string() };
+        for l in 2..=b.len() {
+            let p = b[..l].to_vec();
+            let o = std::panic::catch_unwind(|| erltf::decode(&p).ok().map(|t| format!("{:?}", t)));
+            let z = std::panic::catch_unwind(|| erltf::decode_borrowed(&p).ok().map(|t| format!("{:?}", t.to_owned())));
+            if show(&o) != show(&z) {
+                eprintln!("REPLAY: on {:?} the owned decoder {} and the zero-copy decoder {}", &p[..p.len().min(24)], show(&o), show(&z));
+                std::process::exit(101);
+            }
+        }
+        println!("REPLAY: both decoders agree on every prefix of the {} bytes", b.len());
+        std::process::exit(0);
+    }
+    let borrowed = a[2] == "borrowed";
+    let r = std::panic::catch_unwind(|| if borrowed { erltf::decode_borrowed(&b).is_ok() } else { erltf::decode(&b).is_ok() });
+    if r.is_err() {
+        eprintln!("REPLAY: {} decoder panicked on {:?}", a[2], &b[..b.len().min(24)]);
+        std::process::exit(101);
+    }
+    println!("REPLAY: {} decoder returned on {} bytes", a[2], b.len());
+    std::process::exit(0)
+}
+
 fn main() {
     let a: Vec<String> = std::env::args().collect();
     let kind = a[1].as_str();
+    if kind == "leaf" {
+        leaf(&a);
+    }
     if kind == "cmpseq" {
         cmpseq(&a);
     }
